@@ -44,9 +44,20 @@ type c15Model struct {
 	SeqOntoNonDir, SeqDstMissing, FirstMatchDir bool
 	NMatches                                    int
 	Events                                      []string // collisions seen, e.g. "f>l:replace"
-	src                                         *tree.Tree
-	srcRoot                                     tree.Entry
-	always                                      bool
+	// Origin names, for every destination path a non-directory source entry
+	// landed on during this call, the source path of the LAST such landing
+	// (the union of the matches applied in order: the last one wins).
+	Origin map[string]string
+	// LandedN counts landings per destination path during this call.
+	LandedN map[string]int
+	// Disturbed marks source inode groups (by canonical member) of which some
+	// member's landing was overwritten or removed later in the same call, or
+	// landed on a path another source had landed on: whether the remaining
+	// images still share one inode is then not decided here.
+	Disturbed map[string]bool
+	src       *tree.Tree
+	srcRoot   tree.Entry
+	always    bool
 }
 
 func (m *c15Model) mkdirAll(p string) bool {
@@ -91,6 +102,37 @@ func (m *c15Model) place(s *tree.Entry, L string) {
 	m.T.Put(ne)
 	m.Touched[L] = true
 	delete(m.PathDirs, L)
+	if m.LandedN[L] > 0 {
+		if g := m.srcGroup(s.Path); g != "" {
+			m.Disturbed[g] = true
+		}
+	}
+	m.LandedN[L]++
+	if s.Type != tree.Dir {
+		m.Origin[L] = s.Path
+	}
+}
+
+// srcGroup returns the canonical member of the source inode group p belongs
+// to ("" when p has no further hard links).
+func (m *c15Model) srcGroup(p string) string {
+	if p == "" {
+		return ""
+	}
+	return m.src.GroupOf(p)
+}
+
+// drop forgets what landed at or below L (it is about to be replaced or
+// removed) and marks the inode groups that lose an image that way.
+func (m *c15Model) drop(L string) {
+	for p, o := range m.Origin {
+		if under(p, L) {
+			if g := m.srcGroup(o); g != "" {
+				m.Disturbed[g] = true
+			}
+			delete(m.Origin, p)
+		}
+	}
 }
 
 // apply overlays the source entry at srcPath onto the destination path L.
@@ -142,6 +184,7 @@ func (m *c15Model) apply(srcPath, L string, top bool) bool {
 				return false
 			}
 			m.Events = append(m.Events, fmt.Sprintf("d>%c:replace", ex.Type))
+			m.drop(L)
 			m.T.Remove(L)
 			m.place(s, L)
 		}
@@ -175,10 +218,12 @@ func (m *c15Model) apply(srcPath, L string, top bool) bool {
 				m.Touched[e.Path] = true
 			}
 		}
+		m.drop(L)
 		m.T.Remove(L)
 		m.place(s, L)
 	default:
 		m.Events = append(m.Events, fmt.Sprintf("%c>%c:replace", s.Type, ex.Type))
+		m.drop(L)
 		m.T.Remove(L)
 		m.place(s, L)
 	}
@@ -229,7 +274,8 @@ func c15Matches(src *tree.Tree, arg string) (matches []string, pattern bool, ok 
 
 func c15Overlay(src *tree.Tree, srcRoot tree.Entry, dst *tree.Tree, srcArg, dstArg string, fl cpFlags) *c15Model {
 	m := &c15Model{T: dst.Clone(), PathDirs: map[string]bool{}, Touched: map[string]bool{}, XattrOld: map[string]map[string][]byte{},
-		TopKept: map[string]bool{}, src: src, srcRoot: srcRoot, always: fl.Always}
+		TopKept: map[string]bool{}, src: src, srcRoot: srcRoot, always: fl.Always,
+		Origin: map[string]string{}, LandedN: map[string]int{}, Disturbed: map[string]bool{}}
 	// rule 1: the directory part of dst (all of it when it ends in a separator)
 	ensure := dstArg
 	if d, f := path.Split(dstArg); f != "" && f != "." {
@@ -331,10 +377,10 @@ func init() {
 			"src argument: a source entry, the root ('.', '/', '/.', ''), 'dir/.', or a wildcard ('*','a*','?','[a-c]*','dir/*','*/a'); dst argument: existing directory / non-directory, new name, nested not-yet-existing 'n1/n2', the root, a path below a non-directory; optional leading and trailing separator; flags = random subset of {CopyDirContents, AlwaysReplace, AllowWildcards}. No argument traverses a symlink (C14 does that). " +
 			"fs.Copy runs on disk in a chroot jail and is compared with the executable overlay model (rules 1-7 of DESIGN C15): expected success => snapshot equals the model in paths, types, bytes, targets, rdev, mode/owner (not for directories made only for the path; an existing top-level landing directory keeps its own) and xattrs (nested merged directories: source's added, old ones may stay), unrelated entries keep inode and bytes; expected error => the call fails and the obstacle (with its subtree) keeps inode, type, bytes. A wildcard source is modelled as the sequence of single-source copies of its matches in walk order, each one re-evaluating whether dst exists and is a directory (also when dst does not exist yet or is a non-directory: the first match creates/replaces it, the later ones meet the result); one case in seven is drawn for exactly that: a pattern with >=2 matches whose first match is a directory (the lexically first source entry is turned into a directory in two thirds of them) onto a not-yet-existing plain or nested dst. Any outcome is accepted (and counted by reason) only for: a wildcard without matches, a wildcard prefix that is not a plain directory, and a dst that is a symlink or that an earlier match of the same call turned into a symlink (where later matches go is symlink resolution, C14). " +
 			"Every successful copy is repeated: the second run is checked against the model applied to the first result, and when the landing path is the same the two snapshots must agree in everything but inode/ctime/atime and the mtime of proper ancestors of the landing path. " +
-			"non-trivial = at least one source entry met an existing destination entry (merge, replace or conflict) or the destination path met a non-directory; distinct by (trees, arguments, flags) fingerprint",
+			"One case in three gives the source tree one or two hard-link groups (regular files, one time in five fifos; 1-3 further names in other directories, names from the same universe), half of them with the stacking shape arranged (D1/n member, D2/n other content, D3/m member, D1<D2<D3 top-level directories) and wildcards that sweep several directories ('*/*', '?/*', '*/<member name>') onto a directory; the model keeps, per destination path, the LAST source entry that landed there (union of the matches applied in order) and demands its bytes whatever the inode sharing (signature wildcard-link-content when that source is a member of a link group); destination paths whose last-landing sources are members of one source inode must share an inode, judged only for groups none of whose images was overwritten, removed or stacked during the call (others counted as link_groups_not_judged_image_overwritten_during_call). non-trivial = at least one source entry met an existing destination entry (merge, replace or conflict) or the destination path met a non-directory; distinct by (trees, arguments, flags) fingerprint",
 		Assumptions: []string{
 			"runs as root (mknod, chown, chroot) on tmpfs with user.* xattrs",
-			"FollowLinks, include/exclude patterns, chown/mode/utime options and hard links are not varied here (C13, C14, C16)",
+			"FollowLinks, include/exclude patterns and chown/mode/utime options are not varied here (C13, C14, C16); hard links only on the source side",
 			"mtime equality with the source is left to C13; here mtimes are only compared between the first and the repeated copy",
 			"a source directory copied to a not-yet-existing dst without CopyDirContents lands at dst the first time and, by rule 2, at dst/<base> the second time: the repeat is then checked against the model, not against snapshot equality (counted as idempotence_landing_shift_by_rule_2)",
 		},
@@ -534,7 +580,14 @@ func c15Check(r *core.Result, pre string, ctx string, m *c15Model, before, got *
 		switch e.Type {
 		case tree.File:
 			if !bytes.Equal(e.Data, g.Data) {
-				r.Violate(pre+"overlay-bytes", "%s: %q holds %q, the overlay has %q", ctx, e.Path, g.Data, e.Data)
+				sg := "overlay-bytes"
+				why := ""
+				if o, ok := m.Origin[e.Path]; ok && m.srcGroup(o) != "" {
+					// the last source that landed here is a member of a hard-link group
+					sg = "wildcard-link-content"
+					why = fmt.Sprintf(" (last source landing here: %q, hard-linked with %q)", o, m.src.Groups()[m.srcGroup(o)])
+				}
+				r.Violate(pre+sg, "%s: %q holds %q, the overlay has %q%s", ctx, e.Path, g.Data, e.Data, why)
 			}
 		case tree.Symlink:
 			if e.Target != g.Target {
@@ -602,6 +655,42 @@ func c15Check(r *core.Result, pre string, ctx string, m *c15Model, before, got *
 			r.Violate(pre+"overlay-shape", "%s: not in the overlay: %s", ctx, g.String())
 		}
 	}
+	// images of one source inode: destination paths whose last landing
+	// sources are members of one hard-link group share an inode - judged only
+	// for groups none of whose images was overwritten, removed or stacked
+	// during the call
+	images := map[string][]string{}
+	for p, o := range m.Origin {
+		if grp := m.srcGroup(o); grp != "" {
+			images[grp] = append(images[grp], p)
+		}
+	}
+	for grp, ps := range images {
+		if len(ps) < 2 {
+			continue
+		}
+		sort.Strings(ps)
+		if m.Disturbed[grp] {
+			r.Count(pre+"link_groups_not_judged_image_overwritten_during_call", 1)
+			continue
+		}
+		r.Count(pre+"link_groups_judged", 1)
+		var first *tree.Entry
+		for _, p := range ps {
+			g := got.Get(p)
+			if g == nil {
+				continue
+			}
+			if first == nil {
+				first = g
+				continue
+			}
+			if g.Ino != first.Ino {
+				r.Violate(pre+"link-group-split", "%s: %q and %q are images of one source inode (%q) and nothing else landed on them, but they do not share an inode (%d, %d)", ctx, first.Path, p, m.src.Groups()[grp], first.Ino, g.Ino)
+				break
+			}
+		}
+	}
 }
 
 func c15Run(c *core.Ctx) *core.Result {
@@ -641,6 +730,15 @@ func c15Run(c *core.Ctx) *core.Result {
 			srcT.Sort()
 		}
 	}
+	// one case in three: the source carries hard-link groups (regular files,
+	// sometimes fifos) with members in different directories. Drawn from a
+	// generator of its own so that the other cases stay what they were.
+	lr := core.NewRand(core.Mix(c.Seed, "C15-links", c.Index))
+	linkMode := lr.P(1, 3)
+	forced := false
+	if linkMode {
+		forced = c15AddLinks(lr, srcT)
+	}
 	if err := tree.Materialise(srcRoot, srcT); err != nil {
 		r.Inconclusive = "materialise src: " + err.Error()
 		return r
@@ -660,6 +758,30 @@ func c15Run(c *core.Ctx) *core.Result {
 	srcArg, dstArg, wild := c15Args(c.R, srcT, dstT)
 	if seqMode {
 		srcArg, dstArg, wild = c15SeqArgs(c.R, srcT, dstT, srcArg, dstArg)
+	}
+	if linkMode && len(srcT.Groups()) > 0 && (forced || lr.P(1, 2)) {
+		// wildcards that sweep several directories, so that entries with the
+		// same base name from different directories land on one path
+		var members []string
+		for _, g := range srcT.Groups() {
+			members = append(members, g...)
+		}
+		srcArg = core.Pick(lr, []string{"*/*", "?/*", "*/*", "*/" + tree.Base(core.Pick(lr, members)), "*"})
+		wild = true
+		if lr.P(2, 3) {
+			// an existing directory (or one made by the trailing separator)
+			var dirs []string
+			for _, e := range dstT.Entries {
+				if e.Type == tree.Dir && !strings.Contains(e.Path, "/") {
+					dirs = append(dirs, e.Path)
+				}
+			}
+			if len(dirs) > 0 && lr.P(1, 2) {
+				dstArg = core.Pick(lr, dirs)
+			} else {
+				dstArg = core.Pick(lr, []string{"out/", "/", "", "out/n2/"})
+			}
+		}
 	}
 	fl.Wild = wild
 
@@ -712,6 +834,24 @@ func c15Run(c *core.Ctx) *core.Result {
 		r.Count("dir_slash_dot_source_with_wildcards_lands_under_own_name", 1)
 	}
 	r.AddSet("flag_combinations", fl.String())
+	if len(srcSnap.Groups()) > 0 {
+		r.Count("cases_source_has_hard_link_groups", 1)
+		if forced {
+			r.Count("cases_stacking_shape_arranged", 1)
+		}
+		stacked := 0
+		for _, n := range m.LandedN {
+			if n > 1 {
+				stacked++
+			}
+		}
+		if stacked > 0 {
+			r.Count("cases_links_and_some_destination_path_landed_on_twice", 1)
+		}
+		if len(m.Disturbed) > 0 && m.Any == "" && !m.Err {
+			r.Count("cases_link_group_image_overwritten_during_call", 1)
+		}
+	}
 	if strings.HasSuffix(dstArg, "/") {
 		r.Count("dst_with_trailing_separator", 1)
 	}
@@ -900,4 +1040,112 @@ func c15SeqArgs(r *core.Rand, src, dst *tree.Tree, defSrc, defDst string) (strin
 		best = "/" + best
 	}
 	return best, d, true
+}
+
+// c15AddLinks adds one or two hard-link groups to a source tree: further
+// names, in other directories, for an existing regular file (one time in
+// five for a fifo). In half of the cases it also arranges the shape in which
+// a wildcard over several directories stacks two different files on one
+// destination name between two members of a group: D1/n (member), D2/n
+// (other content), D3/m (member) with D1 < D2 < D3 in walk order. Reports
+// whether that shape was arranged.
+func c15AddLinks(r *core.Rand, t *tree.Tree) (forced bool) {
+	dirs := []string{""}
+	for _, e := range t.Entries {
+		if e.Type == tree.Dir {
+			dirs = append(dirs, e.Path)
+		}
+	}
+	free := func(p string) bool {
+		if t.Get(p) != nil {
+			return false
+		}
+		// the parent must be a directory of the tree (or the root)
+		par := tree.Parent(p)
+		if par == "" {
+			return true
+		}
+		e := t.Get(par)
+		return e != nil && e.Type == tree.Dir
+	}
+	addMember := func(of string, p string) bool {
+		src := t.Get(of)
+		if src == nil || !free(p) {
+			return false
+		}
+		ne := src.Clone()
+		ne.Path = p
+		ne.LinkTo = of
+		t.Entries = append(t.Entries, ne)
+		t.Sort()
+		return true
+	}
+	if r.P(1, 2) {
+		// the stacking shape, on top-level directories
+		var tops []string
+		for _, e := range t.Entries {
+			if e.Type == tree.Dir && !strings.Contains(e.Path, "/") {
+				tops = append(tops, e.Path)
+			}
+		}
+		names := append([]string(nil), c15Names...)
+		core.Shuffle(r, names)
+		for _, n := range names {
+			if len(tops) >= 3 {
+				break
+			}
+			if t.Get(n) == nil {
+				t.Entries = append(t.Entries, tree.Entry{Path: n, Type: tree.Dir, Perm: 0755, Mtime: 1_350_000_000_000_000_000})
+				tops = append(tops, n)
+			}
+		}
+		t.Sort()
+		if len(tops) >= 3 {
+			sort.Strings(tops)
+			i := r.Intn(len(tops) - 2)
+			d1, d2, d3 := tops[i], tops[i+1], tops[i+2]
+			n := core.Pick(r, c15Names)
+			mname := core.Pick(r, c15Names)
+			e1 := t.Get(d1 + "/" + n)
+			if e1 == nil {
+				t.Entries = append(t.Entries, tree.Entry{Path: d1 + "/" + n, Type: tree.File, Perm: 0644, Mtime: 1_360_000_000_000_000_000, Data: []byte("src:" + d1 + "/" + n + ":first-member")})
+				t.Sort()
+				e1 = t.Get(d1 + "/" + n)
+			}
+			if e1.Type == tree.File && e1.LinkTo == "" && mname != n {
+				if e2 := t.Get(d2 + "/" + n); e2 == nil {
+					t.Entries = append(t.Entries, tree.Entry{Path: d2 + "/" + n, Type: tree.File, Perm: 0600, Mtime: 1_370_000_000_000_000_000, Data: []byte("src:" + d2 + "/" + n + ":other-content")})
+					t.Sort()
+				}
+				if e2 := t.Get(d2 + "/" + n); e2 != nil && e2.Type != tree.Dir {
+					forced = addMember(d1+"/"+n, d3+"/"+mname)
+				}
+			}
+		}
+	}
+	groups := r.Range(1, 2)
+	if forced {
+		groups--
+	}
+	for g := 0; g < groups; g++ {
+		var cands []string
+		want := byte(tree.File)
+		if r.P(1, 5) {
+			want = tree.Fifo
+		}
+		for _, e := range t.Entries {
+			if e.Type == want && e.LinkTo == "" {
+				cands = append(cands, e.Path)
+			}
+		}
+		if len(cands) == 0 {
+			continue
+		}
+		of := core.Pick(r, cands)
+		for k := r.Range(1, 3); k > 0; k-- {
+			addMember(of, relJoin(core.Pick(r, dirs), core.Pick(r, c15Names)))
+		}
+	}
+	t.Recanon()
+	return forced
 }
